@@ -15,6 +15,52 @@ ASSUMPTIONS = [
 ]
 
 
+def check_hooks(ns, diffx, data):
+    import io
+
+    class MyDiffX(ns.DiffX):
+        __slots__ = ()
+
+    class MyReader(ns.DiffXReader):
+        pass
+
+    class MyWriter(ns.DiffXWriter):
+        pass
+
+    class MyDOMReader(ns.DiffXDOMReader):
+        reader_cls = MyReader
+
+    class MyDOMWriter(ns.DiffXDOMWriter):
+        writer_cls = MyWriter
+
+    try:
+        sub = MyDiffX.from_bytes(data)
+        via = MyDOMReader(ns.DiffX).parse(io.BytesIO(data))
+        stream = io.BytesIO()
+        MyDOMWriter().write_stream(diffx, stream)
+    except Exception as e:
+        return 'extension-point-failed:%s' % type(e).__name__, repr(e)
+
+    if type(sub) is not MyDiffX:
+        return ('subclass-not-instantiated',
+                'MyDiffX.from_bytes() returned %s' % type(sub).__name__)
+
+    plain = trees.snapshot(ns.DiffX.from_bytes(data))
+    s1 = trees.snapshot(sub)
+    s1[0] = 'DiffX'
+
+    if not trees.snap_eq(s1, plain) or \
+            not trees.snap_eq(trees.snapshot(via), plain):
+        return ('extension-point-changes-the-result',
+                'subclass / reader_cls give a different tree')
+
+    if stream.getvalue() != data:
+        return ('extension-point-changes-the-result',
+                'writer_cls gives different bytes')
+
+    return None
+
+
 def run_case(tree, st):
     ns = sut.load()
     labels, nontrivial = trees.tree_features(tree)
@@ -72,6 +118,14 @@ def run_case(tree, st):
 
     got = trees.snapshot(back)
     want = trees.expected_snapshot(tree)
+
+    # the documented extension points give the same result: a DiffX
+    # subclass, and reader / writer classes plugged into the DOM helpers
+    res = check_hooks(ns, diffx, data)
+
+    if res is not None:
+        st.violation(res[0], res[1], tree)
+        return
 
     if not trees.snap_eq(got, want):
         st.violation('tree-changed-by-round-trip',
